@@ -54,6 +54,10 @@ def run(rep):
     rep.run(pipeline)
     from . import C10
     rep.run(C10.implicit_h, "O1.6")  # its_to_rsmi folds non-centre hydrogens through implicit_hydrogen
+    # ... and writes both sides through GraphToMol (atom properties, bond-type table): the same structural facts C10 needs for its SMILES round trip
+    rep.alias = {"O10.3": "O1.6"}
+    rep.run(C10.mol_graph)
+    rep.alias = {}
 
 
 # ------------------------------------------------------------------ O1.1
